@@ -283,7 +283,12 @@ impl Sched {
                 let idx = g.trace.len();
                 match choices.get(idx) {
                     Some(c) if en.contains(&(*c as usize)) => *c as usize,
-                    _ => en[0],
+                    other => {
+                        if std::env::var("SIM_DEBUG").is_ok() {
+                            eprintln!("[sched] replay diverges at choice #{idx}: recorded {other:?}, enabled {en:?}");
+                        }
+                        en[0]
+                    }
                 }
             }
         };
